@@ -15,7 +15,7 @@ import vunit  # noqa: E402
 
 REPO = os.environ.get('VERIF_REPO', '/repo')
 CACHE = os.path.join(VERIF, '.cache', 'search-target')
-HAS_SEARCH = {'C01', 'C04', 'C12', 'C07', 'C09', 'C11', 'C10', 'C15', 'C16', 'C17', 'C18', 'C19'}
+HAS_SEARCH = {'C01', 'C02', 'C04', 'C12', 'C07', 'C09', 'C11', 'C10', 'C15', 'C16', 'C17', 'C18', 'C19'}
 
 
 def run_search(pid, only=None, timeout=3600, scale=1):
